@@ -147,8 +147,32 @@ def overread(ctx, rem_bits, rem_refs, req, kind):
     ctx.expect_model(sline(dag, 1, [op]), f'ok {res} {rb} {rr}', 'overread')
 
 
+def overread_refs(ctx, nrefs, kind):
+    """consume all n references, then ask for one more (load_ref / preload_ref / load_maybe_ref / load_dict with the bit set)"""
+    dag = [(G.ORD, '1', ()), (G.ORD, '0', ())] + [(G.ORD, '1' * 8, tuple(i % 2 for i in range(nrefs)))]
+    cells = G.lib_build(dag)
+    last = {'lr': 'lr', 'pr': 'pr', 'lmr': 'lmr', 'pmr': 'pmr', 'ld': 'ld:8'}[kind]
+    ops = ['lr'] * nrefs + [last]
+    ctx.case(('over-refs', nrefs, kind))
+    ctx.count(f'refs-{kind}:over')
+    res, rb, rr = S.exec_slice(cells[2], ops)
+    got = res.split(';')
+    inp = {'dag': [list(n) for n in dag], 'ops': ops}
+    want = [cells[i % 2].hash.hex() for i in range(nrefs)]
+    if got[:nrefs] != want:
+        ctx.fail('read:lr', 'load_ref did not return the references in order', inp, got[:nrefs], want)
+    elif got[nrefs] != 'x':
+        ctx.fail(f'overread:{kind}', f'{last} with no references left returned something', inp, got[nrefs], 'exception')
+    elif rr != '-':
+        ctx.fail(f'overread-state:{kind}', f'failed {last} changed the remaining references', inp, rr, '-')
+    ctx.expect_model(sline(dag, 2, ops), f'ok {res} {rb} {rr}', 'overread-refs')
+
+
 def run(ctx):
     rng = ctx.rng
+    for nrefs in range(0, 5):
+        for kind in ('lr', 'pr', 'lmr', 'pmr', 'ld'):
+            overread_refs(ctx, nrefs, kind)
     dag = LEAF_DAG + [(G.ORD, '0' * 1023, (0, 1, 2, 3)), (G.ORD, '10', (0,))]
     cells = G.lib_build(dag)
     fills = [0, 1, 500] + list(range(1015, 1024))
